@@ -9,6 +9,8 @@ import (
 	"math/big"
 	"runtime"
 	"runtime/debug"
+	"strconv"
+	"strings"
 	"time"
 
 	"github.com/markkurossi/mpc/circuit"
@@ -28,12 +30,37 @@ type cs struct {
 	Input  int          `json:"input"` // -1: all inputs
 	Reuse  bool         `json:"reuse"` // garble, release, garble again before checking
 	Hist   string       `json:"hist,omitempty"`
+	// Gen, if set, names a large generated circuit instead of spelling it out in D:
+	// "chain:<OP>:<n>" (n gates of one kind in a chain over 2 inputs) or "mix:<n>" (the five kinds in turn)
+	Gen string `json:"gen,omitempty"`
+}
+
+func genDesc(gen string) circgen.Desc {
+	parts := strings.Split(gen, ":")
+	n, _ := strconv.Atoi(parts[len(parts)-1])
+	ops := make([]circuit.Operation, n)
+	for i := range ops {
+		if parts[0] == "mix" {
+			ops[i] = circgen.Ops[(i+i/7)%5]
+		} else {
+			for _, o := range circgen.Ops {
+				if o.String() == parts[1] {
+					ops[i] = o
+				}
+			}
+		}
+	}
+	return circgen.Chain(2, ops, 2)
 }
 
 var rowsByOp = map[circuit.Operation]int{circuit.XOR: 0, circuit.XNOR: 0, circuit.AND: 2, circuit.OR: 3, circuit.INV: 1}
 
 // one garbling, checked on all (or one) input assignment.
 func runCase(ctx *runner.Ctx, k cs, c *circuit.Circuit) {
+	if k.Gen != "" && len(k.D.Gates) == 0 {
+		k.D = genDesc(k.Gen)
+		defer func() { k.D = circgen.Desc{} }()
+	}
 	nin := k.D.NumIn()
 	if c == nil {
 		c = k.D.Build()
@@ -54,7 +81,13 @@ func runCase(ctx *runner.Ctx, k cs, c *circuit.Circuit) {
 		key[i] = byte(7*i + int(k.Seed) + 1)
 	}
 	fail := func(site, what string) {
-		ctx.Violate("garble."+site, what+" :: "+k.D.String(), k)
+		kk := k
+		name := k.D.String()
+		if k.Gen != "" {
+			kk.D = circgen.Desc{}
+			name = k.Gen
+		}
+		ctx.Violate("garble."+site, what+" :: "+name, kk)
 	}
 	g, err := c.Garble(rd, key)
 	if err != nil {
@@ -92,6 +125,9 @@ func runCase(ctx *runner.Ctx, k cs, c *circuit.Circuit) {
 	}
 	// permute-bit coverage of gate inputs
 	for i := range c.Gates {
+		if k.Gen != "" {
+			break
+		}
 		gt := &c.Gates[i]
 		sa := g.Wires[gt.Input0].L0.S()
 		sb := false
@@ -295,7 +331,26 @@ func families(ctx *runner.Ctx) {
 			}
 		}
 	}
-	ctx.Note(fmt.Sprintf("families: %d circuits (op-sequence chains, 64-gate chains per op, fan-out-16 stars, alternating chains), incl. garble-release-garble reuse", len(descs)))
+	// large circuits: the gate counter and the tweaks pass 2^16 (and 2^17 for AND gates, which use two tweaks)
+	var gens []string
+	for _, op := range circgen.Ops {
+		gens = append(gens, fmt.Sprintf("chain:%s:70000", op))
+	}
+	gens = append(gens, "mix:70000", "mix:140000")
+	for i, gname := range gens {
+		if !ctx.Mine(i) || ctx.Expired() {
+			continue
+		}
+		d := genDesc(gname)
+		c := d.Build()
+		ctx.NontrivialN(1)
+		for _, kl := range []int{16, 32} {
+			for sb := 0; sb < 4; sb++ {
+				runCase(ctx, cs{D: d, Gen: gname, KeyLen: kl, Seed: uint64(ctx.Seed) + uint64(sb), SBits: sb, Input: -1}, c)
+			}
+		}
+	}
+	ctx.Note(fmt.Sprintf("families: %d circuits (op-sequence chains, 64-gate chains per op, fan-out-16 stars, alternating chains), incl. garble-release-garble reuse; plus 7 circuits of 70000-140000 gates (gate counter and tweaks beyond 2^16 / 2^17)", len(descs)))
 }
 
 func replay(ctx *runner.Ctx, raw json.RawMessage) {
